@@ -93,6 +93,11 @@ func resolveUpdate(w *World, op Op, st Stored) *Request {
 		} else {
 			r.Size = cur - op.D
 		}
+	case "rel1": // relative, but never the empty tree
+		r.Size = satAdd(cur, op.D)
+		if r.Size == 0 {
+			r.Size = 1
+		}
 	default: // rel
 		r.Size = satAdd(cur, op.D)
 	}
